@@ -9,8 +9,9 @@ stripped, abstract undissectable header)` (`ABad`: cut short at any layer, not I
 struct, another header protocol) instead of bare octets.  `lower` maps both to the octet form — header
 protocol, sampled octets — so that `encodeSflow' d = encodeSflow d.lower` is the same XDR encoder (length
 word, the four header words, the octets, zero padding to a multiple of four).  The expected datagram
-`expected' d` is written on the abstract side alone, without the dissector: `expectedPacket h payload`
-for the first form, *no entry* for the second, every other record, sample and field as before;
+`expected' d` is written on the abstract side alone, without the dissector: the record's four words (F33) with
+`expectedPacket h payload` for the first form and *without a packet* for the second, every other record, sample
+and field as before;
 `expected_lower` shows that it is what the octet form dissects to (`dissect_encodeHeader`, `dissect_bad`).
 Well-formedness (`WF'`) is stated on the abstract side only.
 -/
@@ -58,11 +59,13 @@ def ADatagram'.lower (d : ADatagram') : ADatagram :=
 /-- the sFlow v5 wire encoding of the abstract datagram -/
 def encodeSflow' (d : ADatagram') : Bytes := encodeSflow d.lower
 
-/-- what a flow record contributes to `Records`, on the abstract side: the expected packet of a
-representable header, nothing for an undissectable one or a skipped record -/
+/-- what a flow record contributes to `Records`, on the abstract side: a raw-header record its four words
+(F33: header protocol, frame length, stripped, number of sampled octets) with the expected packet of a
+representable header and without a packet for an undissectable one; nothing for a skipped record -/
 def expFlowRec' : AFlowRec' → Option FlowRec
-  | .raw _ _ h payload => some (.raw (expectedPacket h payload))
-  | .rawBad _ _ _ => none
+  | .raw fl st h payload =>
+    some (.raw ⟨protoOf h, fl, st, (encodeHeader h ++ payload).length, some (expectedPacket h payload)⟩)
+  | .rawBad fl st b => some (.raw ⟨b.proto, fl, st, b.octets.length, none⟩)
   | .sw s => some (.sw s)
   | .rtr r => some (.rtr r)
   | .unknown _ _ => none
@@ -150,15 +153,14 @@ theorem ADatagram'.lower_WF (d : ADatagram') (hwf : d.WF) : d.lower.WF := by
 
 /-! ## the abstract expectation is what the octet form dissects to -/
 
-/-- a representable header contributes its expected packet, an undissectable one nothing -/
+/-- a representable header contributes its expected packet, an undissectable one none; the four words either way -/
 theorem expFlowRec_lower (r : AFlowRec') (hwf : r.WF) : expFlowRec r.lower = expFlowRec' r := by
   cases r with
   | raw fl st h payload =>
-    simp only [AFlowRec'.lower, expFlowRec, expFlowRec', dissected_ok (dissect_encodeHeader h payload hwf.2.2.1),
-      Option.map_some]
+    simp only [AFlowRec'.lower, expFlowRec, expFlowRec', dissected_ok (dissect_encodeHeader h payload hwf.2.2.1)]
   | rawBad fl st b =>
     obtain ⟨e, he⟩ := dissect_bad b hwf.2.2.1
-    simp only [AFlowRec'.lower, expFlowRec, expFlowRec', dissected_err he, Option.map_none]
+    simp only [AFlowRec'.lower, expFlowRec, expFlowRec', dissected_err he]
   | sw s => rfl
   | rtr r => rfl
   | unknown fmt body => rfl
